@@ -36,6 +36,8 @@ type C15Case struct {
 	Storm  *C18Storm `json:"c18storm,omitempty"`
 	Send   *C15Send  `json:"sendstorm,omitempty"`
 	Burst  *C16Burst `json:"c16burst,omitempty"`
+	Net    *C01Net   `json:"c01net,omitempty"`
+	Conc   *C19Conc  `json:"c19conc,omitempty"`
 }
 
 // C15Send: streams that keep sending while the connection's write side and read side fail in the same instant.
@@ -117,7 +119,7 @@ func execC15Send(t *testing.T, c C15Send) (v Verdict) {
 	return
 }
 
-var c15Families = []string{"c01", "c02", "c02", "c03", "c04", "c07", "c09", "c10", "c11", "c16", "c16rpc", "c17", "c18", "c18rpc", "c18storm", "c20", "sendstorm", "c16burst"}
+var c15Families = []string{"c01", "c02", "c02", "c03", "c04", "c07", "c09", "c10", "c11", "c16", "c16rpc", "c17", "c18", "c18rpc", "c18storm", "c20", "sendstorm", "c16burst", "c01net", "c19conc"}
 
 func genC15(t *rapid.T) C15Case {
 	c := C15Case{Family: rapid.SampledFrom(c15Families).Draw(t, "family"), Yield: rapid.SliceOfN(rapid.Byte(), 1, 16).Draw(t, "yield")}
@@ -184,6 +186,12 @@ func genC15(t *rapid.T) C15Case {
 	case "c16burst":
 		x := genC16Burst(t) // more than the proxy's per-destination buffer outstanding: the overflow path runs
 		c.Burst = &x
+	case "c01net":
+		x := genC01Net(t) // concurrent calls on a ClientConn over the shipped network transports (real sockets, real time)
+		c.Net = &x
+	case "c19conc":
+		x := genC19Conc(t)
+		c.Conc = &x
 	case "sendstorm":
 		c.Send = &C15Send{Streams: rapid.IntRange(1, 8).Draw(t, "streams"), Unary: rapid.IntRange(0, 4).Draw(t, "unary"), Ser: rapid.Bool().Draw(t, "ser")}
 	}
@@ -233,6 +241,10 @@ func execC15(t *testing.T, c C15Case) (v Verdict) {
 		inner = execC18Storm(t, *c.Storm)
 	case "c16burst":
 		inner = execC15Burst(t, *c.Burst)
+	case "c01net":
+		inner = execC01Net(t, *c.Net)
+	case "c19conc":
+		inner = execC19Conc(t, *c.Conc)
 	case "sendstorm":
 		inner = execC15Send(t, *c.Send)
 	case "c20":
